@@ -41,6 +41,7 @@ type Config struct {
 	Reorder      bool          // messages of one link and channel may overtake each other before GST
 	PermissivePV bool          // the validator key signs whatever the state machine asks (no double-sign guard): the discipline of the state machine itself is observed
 	LongStall    time.Duration // >0: every node isolated for this long (past the 15-minute recover timeout)
+	WALDamage    bool          // at a restart the consensus WAL may be found truncated or gone (the signer file is the safety net)
 	Crashes      bool
 	Skew         bool
 	PartSize     int
@@ -99,6 +100,7 @@ const (
 	ModeValidation             // C02
 	ModeHostile                // C16
 	ModeProposer               // C17 (cluster part)
+	ModeSigner                 // C04 (node-level part): crashes, WAL damage, every signing call recorded
 )
 
 type evKind int
@@ -246,6 +248,17 @@ func drawConfig(c *kernel.Ctx, mode Mode) Config {
 		}
 	}
 	// Byzantine validators: strictly less than 1/3 of the total power
+	if mode == ModeSigner {
+		// restarts are the point: real WAL, several crashes, WAL damage at restart
+		cfg.UseWAL = true
+		cfg.Crashes = true
+		cfg.PermissivePV = false
+		cfg.LongStall = 0
+		cfg.WALDamage = true
+		if cfg.GST < 15*time.Second {
+			cfg.GST = 15 * time.Second
+		}
+	}
 	if mode == ModeHostile {
 		cfg.MaxEvents *= 4 // hostile deliveries are events too
 		// one hostile peer holding a validator key: minimal power in half of the
@@ -634,6 +647,9 @@ func (cl *Cluster) scheduleBackground() {
 	}
 	if cfg.Crashes {
 		k := f.Range(1, 3)
+		if cl.mode == ModeSigner {
+			k = f.Range(2, 6)
+		}
 		for x := 0; x < k; x++ {
 			at := time.Duration(f.Range(100, int(cfg.GST/time.Millisecond)+100)) * time.Millisecond
 			down := time.Duration(f.Range(100, 6000)) * time.Millisecond
